@@ -1,7 +1,11 @@
 package main
 
 import (
+	"crypto/sha256"
+	"fmt"
 	gobig "math/big"
+	"strings"
+	"sync"
 
 	"github.com/privacybydesign/gabi"
 	"github.com/privacybydesign/gabi/big"
@@ -9,13 +13,87 @@ import (
 
 // C15: Fiat-Shamir challenge encoding equals its specification.
 
+// sameFromAll evaluates f in several goroutines at once (and once more afterwards): the hash
+// helpers are called from concurrent sessions, their value is a function of the argument alone.
+func sameFromAll(f func() string) string {
+	const n = 6
+	res := make([]string, n+1)
+	var wg sync.WaitGroup
+	for i := 0; i < n; i++ {
+		wg.Add(1)
+		go func(i int) {
+			defer wg.Done()
+			defer func() {
+				if recover() != nil {
+					res[i] = "panic"
+				}
+			}()
+			for k := 0; k < 3; k++ {
+				res[i] = f()
+			}
+		}(i)
+	}
+	wg.Wait()
+	res[n] = f()
+	for _, r := range res {
+		if r != res[n] {
+			return "unstable " + res[n] + " / " + r
+		}
+	}
+	return res[n]
+}
+
 func init() {
 	generators["C15"] = genC15
 	executors["hashcommit"] = func(o Op) string {
-		return showInt(gabi.VerifHashCommit(unhxs(o["vals"]), o.boolean("issig")))
+		vals, issig := unhxs(o["vals"]), o.boolean("issig")
+		return sameFromAll(func() string { return showInt(gabi.VerifHashCommit(vals, issig)) })
 	}
 	executors["inthash"] = func(o Op) string {
-		return showInt(gabi.VerifIntHashSha256(unhb(o["data"])))
+		data := unhb(o["data"])
+		return sameFromAll(func() string { return showInt(gabi.VerifIntHashSha256(data)) })
+	}
+	// many sessions hashing different oversized attributes at the same time: every result is the
+	// digest of its own input
+	executors["inthash-concurrent"] = func(o Op) string {
+		var inputs [][]byte
+		for _, x := range o["inputs"].([]any) {
+			inputs = append(inputs, unhb(x))
+		}
+		rounds := o.int("rounds")
+		bad := make([]int, len(inputs))
+		last := make([]string, len(inputs))
+		var wg sync.WaitGroup
+		for i := range inputs {
+			wg.Add(1)
+			go func(i int) {
+				defer wg.Done()
+				want := sha256.Sum256(inputs[i])
+				for r := 0; r < rounds; r++ {
+					func() {
+						defer func() {
+							if recover() != nil {
+								bad[i]++
+							}
+						}()
+						got := gabi.VerifIntHashSha256(inputs[i])
+						if got.Go().Cmp(new(gobig.Int).SetBytes(want[:])) != 0 {
+							bad[i]++
+						}
+						last[i] = showInt(got)
+					}()
+				}
+			}(i)
+		}
+		wg.Wait()
+		nbad := 0
+		for _, b := range bad {
+			nbad += b
+		}
+		if nbad > 0 {
+			return fmt.Sprintf("wrong-digests %d of %d", nbad, rounds*len(inputs))
+		}
+		return "ok " + strings.Join(last, ",")
 	}
 	executors["sha256"] = func(o Op) string {
 		// via IntHashSha256: the digest as integer, re-padded to 32 bytes
@@ -26,10 +104,12 @@ func init() {
 		return hb(out)
 	}
 	executors["hashnumber"] = func(o Op) string {
-		return showInt(gabi.VerifGetHashNumber(unhx(o["a"]), unhx(o["b"]), int(unhx(o["index"]).Int64()), uint(unhx(o["bitlen"]).Uint64())))
+		a, b, idx, bl := unhx(o["a"]), unhx(o["b"]), int(unhx(o["index"]).Int64()), uint(unhx(o["bitlen"]).Uint64())
+		return sameFromAll(func() string { return showInt(gabi.VerifGetHashNumber(a, b, idx, bl)) })
 	}
 	executors["challenge"] = func(o Op) string {
-		return showInt(gabi.VerifCreateChallenge(unhx(o["context"]), unhx(o["nonce"]), unhxs(o["contribs"]), o.boolean("issig")))
+		ctx, nonce, contribs, issig := unhx(o["context"]), unhx(o["nonce"]), unhxs(o["contribs"]), o.boolean("issig")
+		return sameFromAll(func() string { return showInt(gabi.VerifCreateChallenge(ctx, nonce, contribs, issig)) })
 	}
 }
 
@@ -69,6 +149,17 @@ func genC15(g *Rng, tier string, emit func(Op)) {
 	nLists := 400
 	if tier == "thorough" {
 		nLists = 20000
+	}
+	{
+		var inputs []any
+		for i := 0; i < 16; i++ {
+			inputs = append(inputs, hb(g.bytes(40+g.intn(900))))
+		}
+		rounds := 3000
+		if tier == "thorough" {
+			rounds = 40000
+		}
+		emit(Op{"op": "inthash-concurrent", "class": "inthash-concurrent", "label": "ok", "inputs": inputs, "rounds": rounds})
 	}
 	// content-length boundaries (bytes): 127/128/255/256/65535
 	lenBounds := []int{0, 1, 7, 8, 126 * 8, 127 * 8, 128 * 8, 255 * 8, 256 * 8, 257 * 8}
